@@ -15,6 +15,21 @@ MRQ = 'dashlive/server/requesthandler/media_requests.py'
 
 def build(key, variant, i):
     qual = key.split(':')[1]
+    if qual == 'MediaRequestBase.generate_media_segment':
+        from contracts.rep_native import build_gms
+        kind = variant.split('-')[1]
+        rep, ref = make_rep(i, 'vod')
+        env = spec_env(rep, ref, i)
+        ps, tref = int(i['ps_us']), int(i['tref'])
+        tr = ps * tref // 10**6
+        env['T0'] = tr * rep.timescale // tref if rep.timescale != tref else tr
+        env.update(ps_us=ps, tref=tref, T0_def=True)
+        msi = extract_method(MRQ, 'ServeMpsMedia', 'calculate_media_segment_index', {'flask': flask, 'models': NS(Period=object)})
+        period = NS(start=datetime.timedelta(microseconds=ps), stream=NS(timing_reference=NS(timescale=tref)))
+
+        def setup():
+            flask.g.period = period
+        return build_gms('vod-' + '-'.join(variant.split('-')[1:]), i, 'vod', rep, ref, env, msi=msi, setup=setup)
     if qual == 'ServeMpsMedia.calculate_media_segment_index':
         rep, ref = make_rep(i, 'vod')
         env = spec_env(rep, ref, i)
@@ -76,3 +91,15 @@ def finding_mps_number_before_start(i):
         return False, f'refused: {err}'
     n = case['env']['n']
     return not (1 <= mod_seg <= n), f'number {num}: segment index {mod_seg} returned (stored media segments are 1..{n})'
+
+
+def finding_mps_time_request_asserts(i):
+    """C12/C16: a multi-period media request addressed by $Time$ (route mps-media-seg-by-time) always fails:
+    ServeMpsMedia.calculate_media_segment_index hands back seg_num (None for a time request) as the segment number and
+    generate_media_segment asserts it is not None."""
+    case = build('x:MediaRequestBase.generate_media_segment', 'mps-time-audio', i)
+    try:
+        r = case['call']()
+    except AssertionError as err:
+        return True, f'seg_time={i["seg_time"]}: AssertionError in generate_media_segment (unhandled: HTTP 500)'
+    return False, f'served with status {r.status}'
